@@ -56,7 +56,7 @@ def run(tier):
             if lib["language"] != "c++" or nlib >= (160 if thorough else 3):
                 continue
             # rows the C driver can call (a std::vector argument has no plain C form)
-            cs = libgen.cases_of(lib, {k for k, r in K.ROWS.items() if "c_decl" in r},
+            cs = libgen.cases_of(libgen.without_cfi_conflict(dict(lib, opts=dict(lib["opts"], F_CFI=False))), {k for k, r in K.ROWS.items() if "c_decl" in r},
                                  {k for k, r in K.RESULTS.items() if "c_decl" in r or r["ty"] == "none"})
             if not cs:
                 continue
